@@ -170,9 +170,13 @@ async fn run_one(plan: &Plan, dir: &str, concurrent: bool) -> Result<Outcome, St
         order.push(i);
     }
     let state = observe(&s, &token).await;
-    let mut state_after_restart = None;
-    if plan.restart {
-        s.stop().await;
+    s.stop().await;
+    Ok(Outcome { order, results, state, state_after_restart: None })
+}
+
+/// The restart half: a fresh runtime (every task of the old server is gone), state rebuilt from the data directory.
+async fn after_restart(dir: &str) -> Result<Value, String> {
+    {
         let s2 = Server::start(dir, 3600).await?;
         let mut rx2 = s2.cluster.raft.read().await.storage.subscribe().await;
         for _ in 0..50 {
@@ -187,12 +191,9 @@ async fn run_one(plan: &Plan, dir: &str, concurrent: bool) -> Result<Outcome, St
         if !again.is_empty() {
             st["executed_again_after_restart"] = json!(again);
         }
-        state_after_restart = Some(st);
         s2.stop().await;
-    } else {
-        s.stop().await;
+        Ok(st)
     }
-    Ok(Outcome { order, results, state, state_after_restart })
 }
 
 /// join_all without the futures crate: polls every future in order until all are ready.
@@ -224,15 +225,20 @@ pub(crate) fn exec(plan: &Plan, trials: &mut Trials) -> RunReport {
     let _ = trials.begin();
     let a = Scratch::new("c31a", rep.prog_hash);
     let b = Scratch::new("c31b", rep.prog_hash);
-    let rt = runtime();
     let r = catch(|| {
-        rt.block_on(async {
-            let conc = run_one(plan, &a.0, true).await?;
-            let seq = run_one(plan, &b.0, false).await?;
-            Ok::<_, String>((conc, seq))
-        })
+        let rt = runtime();
+        let mut conc = rt.block_on(run_one(plan, &a.0, true))?;
+        drop(rt);
+        if plan.restart {
+            let rt = runtime();
+            conc.state_after_restart = Some(rt.block_on(after_restart(&a.0))?);
+            drop(rt);
+        }
+        let rt = runtime();
+        let seq = rt.block_on(run_one(plan, &b.0, false))?;
+        drop(rt);
+        Ok::<_, String>((conc, seq))
     });
-    drop(rt);
     rep.evals = 1;
     let reordering = plan.delays.windows(2).any(|w| w[0] > w[1]);
     if reordering {
